@@ -105,6 +105,33 @@ def _install_counter(p, limit):
     return (lexer, scan, box)
 
 
+def _confirm_slow(src, n):
+    """Re-measure a parse that looked CPU-slow: twice more, garbage collector
+    off, fresh Parser.  True only if every repetition is slow as well."""
+    import gc
+    from . import core as _core
+    was = gc.isenabled()
+    gc.disable()
+    try:
+        for _ in range(2):
+            p = Parser()
+            _core.guard_enter(src)
+            t = time.process_time()
+            try:
+                with cpu_guard(PY_GUARD_S):
+                    p.parse(src)
+            except BaseException:  # noqa: BLE001
+                pass
+            finally:
+                _core.guard_exit()
+            if time.process_time() - t <= SLOW_S + 2e-4 * n:
+                return False
+        return True
+    finally:
+        if was:
+            gc.enable()
+
+
 def parse_outcome(src, parser=None, step_factor=2, step_const=16):
     """Parse ``src`` (bytes or str) and observe everything C01..C04/C18 need.
     A lexer-step budget of step_factor*len+step_const turns a hang into a
@@ -158,9 +185,11 @@ def parse_outcome(src, parser=None, step_factor=2, step_const=16):
     dt = time.process_time() - t_cpu
     if o.exc in ("CpuLimit", "StepLimit"):
         _core.slow_incr()
-    elif dt > SLOW_S + 2e-4 * n:
+    elif dt > SLOW_S + 2e-4 * n and _confirm_slow(src, n):
         # CPU time (not wall time) of one parse: thousands of times what a
-        # terminating linear-time parse of this size needs
+        # terminating linear-time parse of this size needs - and reproducibly so
+        # (a single slow measurement can be a garbage collection or a page fault
+        # storm after fork; a slow input is slow every time)
         o.exc = "CpuSlow"
         o.exc_msg = "%.1f s of CPU for %d bytes" % (dt, n)
         o.verdict = None
